@@ -117,7 +117,7 @@ int main(int argc, char** argv)
     // ---- (1) spend menu exploration
     int rc = cs::Explore("C02", {}, [](cs::Sim& s) {
         cs::Plan p;
-        s.kinds = {"spend1", "opret", "chain2", "chain2rev", "dup_input", "dup_input3", "two_spenders", "respend_parent", "respend_grandparent",
+        s.kinds = {"spend1", "opret", "chain2", "chain2rev", "dup_input", "dup_input3", "dup_same_tx3", "two_spenders", "respend_parent", "respend_grandparent",
                    "spend_missing", "spend_bad_index", "spend_opret", "spend_immature", "spend2"};
         s.parents = {"t0", "t1"};
         s.ev_flush = true; s.ev_invalidate = true; s.ev_reconsider = true;
